@@ -421,3 +421,13 @@ Example wrong_stop_flagged :
              0 3 [expected_forward sample_request] [image sample_preconf sample_pbid]
   = Some "commitment-differs"%string.
 Proof. vm_compute. reflexivity. Qed.
+
+(* Repeated hashes are part of "exactly the request's values": C19_verbatim holds for every
+   list, so a request [a; b; a] reaches the sender as "a,b,a" (nothing is de-duplicated). *)
+Definition sample_hash2 : bytes := bos "71c1348f2d7ff7e814f9c3617983703435ea7446de420aeac488bf1de35737e8".
+Example duplicates_kept :
+  let r := {| r_txs := [sample_hash; sample_hash2; sample_hash]; r_amount := bos "0012"; r_bn := 1; r_ds := 2; r_de := 3 |} in
+  request_spec r /\
+  map f_txs (calls (send_bid (Some r) SenderFails None)) = [sample_hash ++ 44 :: sample_hash2 ++ 44 :: sample_hash] /\
+  map f_amount (calls (send_bid (Some r) SenderFails None)) = [bos "0012"].
+Proof. split; [apply validate_spec; vm_compute; reflexivity | split; vm_compute; reflexivity]. Qed.
